@@ -159,6 +159,112 @@ Proof.
   repeat split. intro R. destruct (lr_end _); simpl in *; congruence.
 Qed.
 
+(* ---- zero failures in the property's accounting: only behind an exit status 0 ---- *)
+Definition squiet (o : sout) : bool := match o with SEintr | SEv EvCont => true | _ => false end.
+Lemma expect_zero : forall l b c r, expect b l = (0%nat, c, r) -> In (SEv (EvExit 0)) l \/ forallb squiet l = true.
+Proof.
+  induction l as [|o tl IH]; intros b c r H; [right; reflexivity|].
+  destruct o as [| |[k|s co|s|]]; cbn [expect] in H.
+  - destruct b as [|b]; [discriminate|]. destruct (expect b tl) as [[f c'] r'] eqn:E. inversion H; subst.
+    destruct (IH _ _ _ E) as [I|I]; [left; right; exact I|right; simpl; exact I].
+  - discriminate.
+  - destruct (N.eqb_spec k 0) as [->|]; [left; left; reflexivity|discriminate].
+  - discriminate.
+  - destruct (expect b tl) as [[f c'] r']. discriminate.
+  - destruct (expect b tl) as [[f c'] r'] eqn:E. inversion H; subst.
+    destruct (IH _ _ _ E) as [I|I]; [left; right; exact I|right; simpl; exact I].
+Qed.
+Lemma In_smerge x : forall inject evs, In x evs -> In x (smerge inject evs).
+Proof.
+  induction inject as [|i tl IH]; intros evs H; [exact H|].
+  destruct i; simpl; try (right; apply IH; exact H).
+  destruct evs as [|e r]; [destruct H|]. destruct H as [->|H]; [left; reflexivity|right; apply IH; exact H].
+Qed.
+Lemma smerge_In x : forall inject evs, In x (smerge inject evs) -> In x evs \/ x = SEintr \/ x = SErr 5.
+Proof.
+  induction inject as [|i tl IH]; intros evs H; [left; exact H|].
+  destruct i; simpl in H.
+  - destruct H as [<-|H]; [right; left; reflexivity|apply IH; exact H].
+  - destruct H as [<-|H]; [right; right; reflexivity|apply IH; exact H].
+  - destruct evs as [|e r]; [destruct H|]. destruct H as [<-|H]; [left; left; reflexivity|].
+    destruct (IH r H) as [I|I]; [left; right; exact I|right; exact I].
+Qed.
+(* a stream "events, then the end of the child", with injected faults: no failure expected only if the end is exit status 0 *)
+Lemma stream_zero_clean inject pre final b c r :
+  (forall x, In x pre -> x <> SEv (EvExit 0)) -> squiet final = false ->
+  expect b (smerge inject (pre ++ [final])) = (0%nat, c, r) -> final = SEv (EvExit 0).
+Proof.
+  intros P Q H. destruct (expect_zero _ _ _ _ H) as [I|I].
+  - destruct (smerge_In _ _ _ I) as [J|[J|J]]; try discriminate.
+    apply in_app_or in J. destruct J as [J|[J|[]]]; [destruct (P _ J eq_refl)|exact J].
+  - rewrite forallb_forall in I. rewrite (I final) in Q; [discriminate|]. apply In_smerge. apply in_or_app. right. left. reflexivity.
+Qed.
+Lemma fate_clean p st f : child_trace p = (st, f) -> fate_sout f = SEv (EvExit 0) -> unclean p = false.
+Proof.
+  intros CT H. unfold unclean. rewrite CT. simpl. destruct f as [s|k|n]; simpl in H; [discriminate| |].
+  - inversion H. reflexivity.
+  - destruct (N.eqb_spec n 0) as [->|]; [reflexivity|discriminate].
+Qed.
+Lemma stops_not_exit0 (st : list N) x : In x (map (fun s => SEv (EvStop s)) st) -> x <> SEv (EvExit 0).
+Proof. intro H. apply in_map_iff in H. destruct H as [s [<- _]]. discriminate. Qed.
+Lemma fate_not_quiet f : squiet (fate_sout f) = false.
+Proof. destruct f; reflexivity. Qed.
+
+Lemma never_real p inject fe c r : expect tolerated (real_stream p inject) = (fe, c, r) -> unclean p = true -> (fe =? 0)%nat = false.
+Proof.
+  intros E U. destruct fe; [|reflexivity]. exfalso. unfold real_stream in E. destruct (child_trace p) as [st f] eqn:CT.
+  pose proof (stream_zero_clean _ _ _ _ _ _ (stops_not_exit0 st) (fate_not_quiet f) E) as F.
+  rewrite (fate_clean p st f CT F) in U. discriminate.
+Qed.
+Lemma never_env e p inject fe c r : expect tolerated (env_stream e p inject) = (fe, c, r) -> unclean p = true -> (fe =? 0)%nat = false.
+Proof.
+  intros E U. destruct fe; [|reflexivity]. exfalso. unfold env_stream in E. destruct (child_trace p) as [st f] eqn:CT.
+  rewrite app_assoc in E.
+  assert (P : forall x, In x (repeat SEintr (e_eintr e) ++ map (fun s => SEv (EvStop s)) st) -> x <> SEv (EvExit 0)).
+  { intros x Hx. apply in_app_or in Hx. destruct Hx as [Hx|Hx]; [apply repeat_spec in Hx; subst; discriminate|apply (stops_not_exit0 st); exact Hx]. }
+  destruct (auto_reaped (e_chld e)).
+  - pose proof (stream_zero_clean inject _ (SErr c_ECHILD) _ _ _ P eq_refl E) as F. discriminate.
+  - pose proof (stream_zero_clean _ _ _ _ _ _ P (fate_not_quiet f) E) as F.
+    rewrite (fate_clean p st f CT F) in U. discriminate.
+Qed.
+
+(* ---- a real child under a process-level configuration: the model's answers are the words of the symbolic stream ---- *)
+Lemma wmerge_smerge : forall inject l, map conc (smerge inject l) = wmerge inject (map conc l).
+Proof.
+  induction inject as [|i tl IH]; intro l; [reflexivity|].
+  destruct i; simpl; try (rewrite IH; reflexivity).
+  destruct l as [|o r]; [reflexivity|]. simpl. rewrite IH. reflexivity.
+Qed.
+Lemma map_conc_repeat n : map conc (repeat SEintr n) = repeat WEintr n.
+Proof. induction n as [|n IH]; [reflexivity|]. simpl. rewrite IH. reflexivity. Qed.
+Lemma run_env_stream count e p inject :
+  run_env count e p inject = env_item e (parent_loop 0 (map conc (env_stream e p inject))).
+Proof.
+  unfold run_env, env_stream. destruct (child_trace p) as [st f]. rewrite wmerge_smerge. f_equal. f_equal. f_equal.
+  unfold env_answers, kernel_answers. rewrite !map_app, map_conc_repeat, map_map. cbn [map]. f_equal. f_equal. f_equal.
+  destruct (auto_reaped (e_chld e)); [reflexivity|]. rewrite <- (child_final_fate count f). reflexivity.
+Qed.
+Lemma env_stream_ok e p inject : prog_ok p = true -> forallb sout_ok (env_stream e p inject) = true.
+Proof.
+  intro H. destruct (child_trace_ok p H) as [S F]. unfold env_stream. destruct (child_trace p) as [st f]. simpl in *.
+  apply smerge_ok. rewrite !forallb_app. apply andb_true_intro. split; [|apply andb_true_intro; split].
+  - apply forallb_forall. intros x Hx. apply repeat_spec in Hx. subst. reflexivity.
+  - unfold stops_ok in S. rewrite forallb_forall in *. intros x Hx. apply in_map_iff in Hx. destruct Hx as [s [<- Hs]].
+    simpl. apply S. exact Hs.
+  - simpl. rewrite andb_true_r. destruct (auto_reaped (e_chld e)); [reflexivity|].
+    destruct f as [s|k|n]; simpl in *; try assumption. destruct (n =? 0); reflexivity.
+Qed.
+Lemma run_env_ok count e p inject : prog_ok p = true ->
+  let it := run_env count e p inject in
+  let '(f, c, reaped) := expect tolerated (env_stream e p inject) in
+  i_started it = true /\ length (i_fails it) = f /\ i_calls it = c /\ (reaped = true -> i_lost it = false).
+Proof.
+  intro H. rewrite run_env_stream.
+  pose proof (loop_expect (env_stream e p inject) 0 (env_stream_ok e p inject H)) as L. cbv zeta in L.
+  rewrite budget_0 in L. rewrite L. cbv zeta. unfold env_item. simpl.
+  repeat split. intro R. destruct (auto_reaped (e_chld e)); [reflexivity|]. destruct (lr_end _); simpl in *; congruence.
+Qed.
+
 Lemma plain_prog_ok f : prog_ok (plain_prog f) = true.
 Proof. destruct f; reflexivity. Qed.
 
@@ -167,7 +273,7 @@ Proof. rewrite map_app. reflexivity. Qed.
 
 Lemma item_ok_run all_sep count t : test_ok t = true -> item_ok all_sep t (run_test all_sep count t) = true.
 Proof.
-  intro H. unfold item_ok, expected, run_test. destruct t as [f|ok ws|p inject].
+  intro H. unfold item_ok, expected, run_test, never_passed_ok. destruct t as [f|ok ws|p inject|e p inject].
   - destruct all_sep.
     + pose proof (run_real_ok count (plain_prog f) [] (plain_prog_ok f)) as R. cbv zeta in R.
       destruct (expect tolerated (real_stream (plain_prog f) [])) as [[fe c] reaped].
@@ -180,9 +286,18 @@ Proof.
     pose proof (loop_expect (ws ++ [SEv (EvExit 0)]) 0 OK) as L. cbv zeta in L. rewrite budget_0 in L. rewrite L.
     simpl. rewrite !Nat.eqb_refl. reflexivity.
   - pose proof (run_real_ok count p inject H) as R. cbv zeta in R.
-    destruct (expect tolerated (real_stream p inject)) as [[fe c] reaped].
+    destruct (expect tolerated (real_stream p inject)) as [[fe c] reaped] eqn:EX.
     destruct R as [-> [-> [-> RL]]]. rewrite !Nat.eqb_refl.
-    destruct reaped; [rewrite (RL eq_refl)|]; reflexivity.
+    assert (NP : (if unclean p then negb (fe =? 0)%nat else true) = true)
+      by (destruct (unclean p) eqn:U; [rewrite (never_real p inject fe c reaped EX U)|]; reflexivity).
+    rewrite NP. destruct reaped; [rewrite (RL eq_refl)|]; reflexivity.
+  - simpl in H. apply andb_prop in H. destruct H as [_ H].
+    pose proof (run_env_ok count e p inject H) as R. cbv zeta in R.
+    destruct (expect tolerated (env_stream e p inject)) as [[fe c] reaped] eqn:EX.
+    destruct R as [-> [-> [-> RL]]]. rewrite !Nat.eqb_refl.
+    assert (NP : (if unclean p then negb (fe =? 0)%nat else true) = true)
+      by (destruct (unclean p) eqn:U; [rewrite (never_env e p inject fe c reaped EX U)|]; reflexivity).
+    rewrite NP. destruct reaped; [rewrite (RL eq_refl)|]; reflexivity.
 Qed.
 
 (* ---- ignored tests ---- *)
